@@ -57,14 +57,16 @@ Update(w, a) ==
 (* An update whose callbacks fail (the failing callback modelled here is the last one, the reload   *)
 (* of Prometheus: the configuration file has been written): the request is answered with an error,  *)
 (* nothing is persisted and Prometheus goes on with what it had loaded.                             *)
-(* RejectKeepsOld (the repaired tree): the request is not in force either - assignment, statuses      *)
+(* RejectKeepsOld (the repaired tree): the request is not in force either - assignment, statuses,     *)
+(* the generated file                                                                                  *)
 (* (state, scrape counter) and idle instant are what they were, so that the shard's report shows the   *)
 (* coordinator that it does not have what was asked for.  FALSE (the pinned tree): the bookkeeping in   *)
 (* memory has taken the request over; that is what the shard reports from then on (the coordinator,      *)
 (* seeing its plan in force, never asks again) and what a restart forgets.                               *)
 RejectKeepsOld == TRUE
 UpdateRejected(w, a) ==
-  IF RejectKeepsOld THEN [w EXCEPT !.gen = GenOf(a)]
+  IF RejectKeepsOld THEN [w EXCEPT !.loaded = w.gen]       \* (the callbacks run once more with what is in force: the file is that of
+                                                           \* the assignment in force, and this time Prometheus takes the reload)
   ELSE [Update(w, a) EXCEPT !.store = w.store, !.loaded = w.loaded]
 
 (* Completion of one proxied scrape of hash h (A.11).  ok: the real scrape succeeded;     *)
